@@ -50,6 +50,7 @@ open_(['C05'], r'.*\.rep=row\..*',
       'row representation: getBasisInverseRowReal/ColReal/TimesVecReal, multBasis, multBasisTranspose return wrong values (multBasis accumulates into a DSVector with duplicate indices and adds scaled and unscaled columns; getBasisInverseColReal drops an spxLdexp result) - upstream "@todo does not work correctly"', regex=True)
 open_(['C05'], r'crash:.*(getBasisInverseColReal|getBasisInverseRowReal|getRowScaleExp).*',
       'row representation: getBasisInverseColReal indexes the scale-exponent array with a basis index (heap-buffer-overflow / use-after-free)', regex=True)
+open_(['C17'], r'crash:.*SLUFactor::assign.*', 'copying a SoPlex object whose SLUFactor has never been loaded: SLUFactor::assign reserves u.row.size elements from an uninitialised size (std::length_error)', regex=True)
 open_(['C17'], r'resolve-after-clearBasis-differs:.*',
       'solving the same unmodified object again after clearBasis() is not a replica of the first solve (different iteration count / vertex in 1-3% of the LPs): per-solve state survives clearBasis()', regex=True)
 # --- exact solver
@@ -74,6 +75,6 @@ open_(['C08'], 'verdict.VANISHED:{}', 'simplifier "solves" an infeasible LP outr
 open_(['C08'], 'reduced-class:{}', 'reduced LP is unbounded/infeasible (even relaxed by 1e-9) although the original has a certified finite optimum',
       repro='findings/C08_reduced_unbounded.lp')
 # --- file I/O
-open_(['C14', 'C12', 'C09'], r'exception\.[A-Za-z]+\.XMPSWR02.*', 'the MPS writer throws SPxInternalCodeException("XMPSWR02 This should never happen") for a free row (lhs=-inf, rhs=+inf) instead of writing it or returning false', regex=True)
+open_(['C14', 'C12', 'C09'], r'(exception\.[A-Za-z]+\.XMPSWR02.*|leak:SoPlexBase::(writeStateReal|writeFileReal|writeFile).*)', 'the MPS writer throws SPxInternalCodeException("XMPSWR02 This should never happen") for a free row (lhs=-inf, rhs=+inf) instead of writing it or returning false; the unscaled LP copy made by writeFile() leaks on that path', regex=True)
 json.dump(dict(findings=F), open(os.path.join(V, 'known_findings.json'), 'w'), indent=1)
 print('wrote', len(F), 'entries')
